@@ -23,7 +23,8 @@ MaxMsg == 9             \* values above are hashed (Lm)
 \* the hash of an oversize value lands in 5..9, where no genuine small value lives (collision freedom)
 Hsh(x) == CASE x = 40 -> 5 [] x = 31 -> 6 [] x = 33 -> 8 [] x = 34 -> 9 [] OTHER -> 7
 Rep(x) == IF x <= MaxMsg THEN x ELSE Hsh(x)
-Idx == 0..NAttr
+Idx == 0..(NAttr + 2)     \* NAttr+1, NAttr+2: bases of the key beyond the credential's attributes (nothing signed there = exponent 0)
+Real == 0..NAttr
 AttrVals == {0, 2, 3, 40}       \* zero, two small values, one oversize value
 SecretVals == {2, 3}
 
@@ -39,10 +40,10 @@ vars == <<m, disc, hid, ecoef, vcoef, erc, sess, ndev>>
 NoHid == [on |-> FALSE, s |-> 0, rc |-> "in", tag |-> "none"]
 HonestHid(i) == [on |-> TRUE, s |-> Rep(m[i]), rc |-> "in", tag |-> "true"]
 
-Init == /\ m \in [Idx -> AttrVals] /\ m[0] \in SecretVals
+Init == /\ m \in [Idx -> AttrVals] /\ m[0] \in SecretVals /\ (\A i \in Idx \ Real : m[i] = 0)
         /\ \E D \in SUBSET (1..NAttr) :
               /\ disc = [i \in Idx |-> IF i \in D THEN m[i] ELSE -1]
-              /\ hid = [i \in Idx |-> IF i \in D THEN NoHid ELSE [on |-> TRUE, s |-> Rep(m[i]), rc |-> "in", tag |-> "true"]]
+              /\ hid = [i \in Idx |-> IF i \in D \/ i \notin Real THEN NoHid ELSE [on |-> TRUE, s |-> Rep(m[i]), rc |-> "in", tag |-> "true"]]
         /\ ecoef = "true" /\ vcoef = "true" /\ erc = "in" /\ sess = "same" /\ ndev = 0
 
 Dev == ndev < MaxDev /\ ndev' = ndev + 1 /\ UNCHANGED m
@@ -72,6 +73,10 @@ SetCoeff == \E i \in Idx, d \in {ORD, 1} :
 Boundary == \E i \in Idx, rc \in {"max", "over", "neg"} :
    /\ hid[i].on /\ hid[i].s = 0 /\ hid[i].rc = "in" /\ Dev
    /\ hid' = [hid EXCEPT ![i].rc = rc] /\ UNCHANGED <<disc, ecoef, vcoef, erc, sess>>
+\* report a value for an index that the proof says nothing about yet (e.g. a base beyond the credential's attributes)
+Claim == \E i \in Idx : \E a \in Claims(i) :
+   /\ disc[i] = -1 /\ ~hid[i].on /\ Dev
+   /\ disc' = [disc EXCEPT ![i] = a] /\ UNCHANGED <<hid, ecoef, vcoef, erc, sess>>
 \* leave an index out altogether
 Drop == \E i \in Idx :
    /\ (disc[i] # -1 \/ hid[i].on) /\ Dev
@@ -82,7 +87,7 @@ VCoef == \E x \in {"shift", "off"} : vcoef = "true" /\ Dev /\ vcoef' = x /\ UNCH
 ESize == \E x \in {"max", "over", "neg"} : erc = "in" /\ Dev /\ erc' = x /\ UNCHANGED <<disc, hid, ecoef, vcoef, sess>>
 OtherSession == sess = "same" /\ Dev /\ sess' = "other" /\ UNCHANGED <<disc, hid, ecoef, vcoef, erc>>
 
-Next == AlterDisclosed \/ Overlap \/ Toggle \/ SetCoeff \/ Boundary \/ Drop \/ ECoef \/ VCoef \/ ESize \/ OtherSession
+Next == AlterDisclosed \/ Claim \/ Overlap \/ Toggle \/ SetCoeff \/ Boundary \/ Drop \/ ECoef \/ VCoef \/ ESize \/ OtherSession
 Spec == Init /\ [][Next]_vars
 
 \* ---------------------------------------------------------------- the verifier, transcribed
@@ -102,7 +107,7 @@ Authentic == VerifyD => /\ \A i \in D : Rep(disc[i]) = Rep(m[i])
                         /\ D \cap H = {}
                         /\ \A i \in H : hid[i].rc \in {"in", "max"}
 \* property C04, model side: the honest proof of every disclosure set verifies and reports exactly that set
-HonestComplete == ndev = 0 => VerifyD /\ D \cup H = Idx /\ D \cap H = {} /\ \A i \in D : disc[i] = m[i]
+HonestComplete == ndev = 0 => VerifyD /\ D \cup H = Real /\ D \cap H = {} /\ \A i \in D : disc[i] = m[i]
 \* sanity (must be violated): some deviating proof is accepted, so Authentic is not vacuous
 NoDeviantAccepted == ~(ndev > 0 /\ VerifyD)
 =============================================================================
